@@ -68,14 +68,14 @@ def plan(tier, seed):
     q = tier == 'quick'
     secs = 45 if q else 600
     shards = []
-    for kind, total, parts in (('lift_m', 60000 if q else 1_500_000, 5 if q else 6),
-                               ('lift_b', 60000 if q else 1_500_000, 5 if q else 6),
-                               ('laws', 300000 if q else 6_000_000, 4)):
+    for kind, total, parts in (('lift_m', 60000 if q else 7_000_000, 5 if q else 6),
+                               ('lift_b', 60000 if q else 7_000_000, 5 if q else 6),
+                               ('laws', 300000 if q else 30_000_000, 4)):
         for p, (f, n) in enumerate(split(total, parts)):
             shards.append({'name': f'{kind}{p}', 'mode': 'nrt', 'kind': kind,
                            'first_case': f, 'n': n, 'secs': secs,
                            'hard_timeout': secs + 120})
-    for p, (f, n) in enumerate(split(30000 if q else 1_200_000, 2)):
+    for p, (f, n) in enumerate(split(30000 if q else 4_000_000, 2)):
         shards.append({'name': f'hist{p}', 'mode': 'nrt', 'kind': 'hist',
                        'first_case': f, 'n': n, 'secs': secs,
                        'hard_timeout': secs + 120})
